@@ -81,6 +81,7 @@ def cases(rng, tier):
 SPEC = {
     'lean': ['C17'],
     'cases': cases,
+    'big': True,
     'stream': 'C17 bitwise / rounding stream',
     'rule': 'integer pairs to 2^200 in all sign combinations: and / or / xor rebuilt bit by bit from the operands\' '
             'infinite two\'s-complement strings (bit i = ⌊x / 2^i⌋ mod 2), not = −x−1, shift counts −300…300 (= x·2^n / '
